@@ -85,7 +85,7 @@ CbStartViol(k, inlen) ==
     \* (a connection torn down before its OnConnect ever started is exempt: the handler may not run before OnConnect)
     \cup (IF k \in CloseKinds /\ ~AnyCloseStarted /\ inlen > 0 /\ o.reqSet /\ ~o.localClose /\ ~o.panicked
              /\ (~o.cfg.conn \/ o.started["connect"] > 0)
-          THEN {"C06.input_not_offered_before_close_callbacks"} ELSE {})
+          THEN {"C06.input_not_offered_before_close_callbacks", "C04.sent_bytes_not_offered_before_end_of_stream"} ELSE {})
 
 FdCloseViol(wasOpen) ==
     (IF o.fdCloses > 0 THEN {"C05.descriptor_closed_twice"} ELSE {})
@@ -100,6 +100,8 @@ IsActiveViol(v) == IF v = 1 /\ o.inactive THEN {"C05.isactive_true_after_false"}
 ReadRetViol(a, err, ok, lenAfter) ==
     LET c == o.pend[a] IN
     (IF err = "nil" /\ ok = 0 THEN {"C04.read_returned_wrong_bytes"} ELSE {})
+    \* end-of-stream is reported only once everything the peer sent has been delivered
+    \cup (IF err = "eof" /\ o.consumed + lenAfter < o.sent THEN {"C04.end_of_stream_before_all_data"} ELSE {})
     \cup (IF err = "eof" /\ ~o.peerClosed THEN {"C07.eof_without_peer_close"} ELSE {})
     \cup (IF err = "closed" /\ ~o.localClose THEN {"C07.connclosed_without_local_close"} ELSE {})
     \cup (IF err = "rtimeout" /\ o.rtFired = c.rt THEN {"C07.timeout_without_expiry"} ELSE {})
@@ -141,6 +143,7 @@ QuiescentViol(inlen, blocked) ==
     \* C07/C08: nobody stays blocked once a wake-up condition holds
     \cup UNION {(IF b.k = "read" /\ (inlen >= b.n \/ o.peerClosed \/ o.localClose) THEN {"C07.reader_blocked_for_ever"} ELSE {})
                 \cup (IF b.k = "write" /\ (o.peerClosed \/ o.localClose \/ b.n = 0 \/ o.peerPending = 0) THEN {"C08.flusher_blocked_for_ever"} ELSE {})
+                \cup (IF b.k = "until" /\ (b.n = 1 \/ o.peerClosed \/ o.localClose) THEN {"C04.line_reader_blocked_with_delimiter_buffered"} ELSE {})
                 \cup (IF b.k = "spin" THEN {"C05.goroutine_spinning_for_ever"} ELSE {})
                 \cup (IF b.k = "timerdrain" THEN {"C07.reader_stuck_draining_timer"} ELSE {}) : b \in blocked}
 
@@ -159,7 +162,7 @@ CallEff(a, api, n, m) ==
 RetEff(a, api, n, ok, err) ==
     [o EXCEPT !.pend[a] = NoCall,
               !.closeDone = (@ \/ api \in {"Close", "Detach"}),
-              !.consumed = IF api = "Next" /\ err = "nil" THEN @ + n ELSE @,
+              !.consumed = IF api \in {"Next", "Until"} THEN (IF err = "nil" \/ api = "Until" THEN @ + n ELSE @) ELSE @,
               !.submitted = IF api = "Write" /\ err = "nil" THEN @ + o.pend[a].n ELSE @,
               !.reqSet = (@ \/ api = "SetOnRequest"),
               \* a read that reported end-of-stream before anybody closed locally: the peer's close was seen first
